@@ -22,4 +22,11 @@ CHECKS.update({
         "technique": "symbolic execution (CrossHair + z3) of the real comparison operators vs. plain Python comparison, differential per path",
     },
 })
+CHECKS.update({
+    "C01": {
+        "text": "The real plugin hooks (pytest_configure, snapshot_check fixture, pytest_sessionfinish with import insertion) run in-process under CrossHair with --inline-snapshot=create on templates with empty snapshot() calls (4 placements x 5 operations x 24 value shapes); the observed leaves are symbolic ints, so default elision, min/max selection, distinct-member selection are solver-decided paths; on each path the rewritten module is executed with inline-snapshot inactive and the solver decides that every assertion holds.",
+        "note": "Bounds: shapes up to depth 2 / width 3, <=3 observations; int leaves symbolic, other leaf types concrete constants; pydantic and externals outside (C code realises symbolic ints / C13). pytest's runner itself is replaced by direct calls of the real hooks with stub objects.",
+        "technique": "symbolic execution (CrossHair + z3) of the real create pipeline; oracle = rewritten module passes when inline-snapshot is disabled, decided per path",
+    },
+})
 NOT_APPLICABLE = {}
